@@ -30,7 +30,7 @@ const WK: [&str; NW] = ["w0", "w1", "w2", "w3", "w4", "w5", "w6"];
 
 pub trait TimerApi: 'static {
     type Fut: Future<Output = ()> + FusedFuture;
-    fn create(clock: ClockRef) -> Box<Self>;
+    fn create(clock: ClockRef) -> Self;
     fn deadline(&'static self, t: u64) -> Self::Fut;
     fn delay(&'static self, d: Duration) -> Self::Fut;
     fn next_expiration(&self) -> Option<u64>;
@@ -40,8 +40,8 @@ pub trait TimerApi: 'static {
 
 impl TimerApi for GenericTimerService<NoopLock> {
     type Fut = LocalTimerFuture<'static>;
-    fn create(clock: ClockRef) -> Box<Self> {
-        Box::new(GenericTimerService::new(clock.as_dyn()))
+    fn create(clock: ClockRef) -> Self {
+        GenericTimerService::new(clock.as_dyn())
     }
     fn deadline(&'static self, t: u64) -> Self::Fut {
         LocalTimer::deadline(self, t)
@@ -62,8 +62,8 @@ impl TimerApi for GenericTimerService<NoopLock> {
 
 impl TimerApi for GenericTimerService<PlLock> {
     type Fut = TimerFuture<'static>;
-    fn create(clock: ClockRef) -> Box<Self> {
-        Box::new(GenericTimerService::new(clock.as_dyn()))
+    fn create(clock: ClockRef) -> Self {
+        GenericTimerService::new(clock.as_dyn())
     }
     fn deadline(&'static self, t: u64) -> Self::Fut {
         Timer::deadline(self, t)
@@ -84,8 +84,8 @@ impl TimerApi for GenericTimerService<PlLock> {
 
 pub struct TimerWorld<A: TimerApi> {
     futs: Arena<A::Fut>,
-    prim_ref: &'static A,
-    root: Option<Box<A>>,
+    prim_ref: Option<&'static A>,
+    root: Option<Owned<A>>,
     prim_alive: bool,
     clock: ClockRef,
     // model
@@ -127,14 +127,14 @@ impl<A: TimerApi> TimerWorld<A> {
             return;
         }
         // next_expiration() is exact
-        let ne = self.prim_ref.next_expiration();
+        let ne = self.prim_ref.unwrap().next_expiration();
         let want = self.model_next(env);
         if ne != want {
             env.fail("C15", "next-expiration", format!("after {}: next_expiration() = {:?} but the smallest registered deadline is {:?}", OP_NAMES[op.k as usize], ne, want), true);
             return;
         }
         let futs = &self.futs;
-        let snap = self.prim_ref.snapshot(&mut |addr| futs.find(addr).is_some());
+        let snap = self.prim_ref.unwrap().snapshot(&mut |addr| futs.find(addr).is_some());
         let resolve = |addr: usize| futs.find(addr).map(|id| (id, 0u8));
         let orders = oracle::c01_membership(env, &snap, &resolve, &[QueueKind { name: "waiters", kinds: &[0] }]);
         if env.has_fatal() {
@@ -185,8 +185,7 @@ impl<A: TimerApi> World for TimerWorld<A> {
         let clock = ClockRef::claim(cfg_get(cfg, "mock_clock", 0) != 0);
         let start = cfg_get(cfg, "start", 0) as u64;
         clock.set(start);
-        let root = A::create(clock);
-        let prim_ref: &'static A = unsafe { &*(&*root as *const A) };
+        let (root, prim_ref) = Owned::new(A::create(clock));
         let mut weights = [0u32; NW];
         for (i, w) in weights.iter_mut().enumerate() {
             *w = cfg_get(cfg, WK[i], 10) as u32;
@@ -201,7 +200,7 @@ impl<A: TimerApi> World for TimerWorld<A> {
         }
         TimerWorld {
             futs: Arena::new(),
-            prim_ref,
+            prim_ref: Some(prim_ref),
             root: Some(root),
             prim_alive: true,
             clock,
@@ -306,7 +305,7 @@ impl<A: TimerApi> World for TimerWorld<A> {
         match op.k {
             OP_NEW_DEADLINE => {
                 if self.prim_alive && !self.used[id] {
-                    let t = self.prim_ref;
+                    let t = self.prim_ref.unwrap();
                     let dl = op.c;
                     if let Some(f) = env.call("deadline", || t.deadline(dl)) {
                         self.new_fut(env, id, f, dl);
@@ -315,7 +314,7 @@ impl<A: TimerApi> World for TimerWorld<A> {
             }
             OP_NEW_DELAY => {
                 if self.prim_alive && !self.used[id] {
-                    let t = self.prim_ref;
+                    let t = self.prim_ref.unwrap();
                     let (dur, ms) = match op.c {
                         u64::MAX => (Duration::MAX, u64::MAX),
                         m => (Duration::from_millis(m), m),
@@ -380,7 +379,7 @@ impl<A: TimerApi> World for TimerWorld<A> {
             }
             OP_CHECK => {
                 if self.prim_alive {
-                    let t = self.prim_ref;
+                    let t = self.prim_ref.unwrap();
                     let due: Vec<usize> = env.live.iter().copied().filter(|i| self.registered[*i] && !self.expired[*i] && self.deadline[*i] <= self.now).collect();
                     if !due.is_empty() && self.stale_since >= 3 {
                         env.fault("driver_stall");
@@ -421,6 +420,7 @@ impl<A: TimerApi> World for TimerWorld<A> {
             }
             OP_DROP_PRIM => {
                 if self.prim_alive && env.live.is_empty() {
+                    self.prim_ref = None;
                     let root = self.root.take();
                     env.call("drop timer service", || drop(root));
                     self.prim_alive = false;
